@@ -1,14 +1,227 @@
 import GT.DriverCore
+import GT.Model.Hetero
 /-!
 # Driver extension: operations of `gaussian_toolbox/approximate_conditional.py (heteroscedastic classes)`
 `execHetero dst op` returns `true` when it handled the instruction.
+
+Instructions (`c` = register of a heteroscedastic conditional, `p` = register of a `GaussianPDF`,
+`x`, `y`, `a`, `om` = registers of arrays, `k` = index of a noise unit):
+
+* `hetero <exp|coshm1> R Dy Dx Da Dk M b A W` — constructor (refusals of `__post_init__`)
+* `het_linear_layer c x`, `het_cond_mu c x`, `het_cond_cov c x which` (`0`: `invert=False`;
+  `1,2,3`: `Sigma`, `Lambda`, `ln_det` of `invert=True`), `het_condition_on_x c x`, `het_set_y c y`
+* `het_noise_diag c p`, `het_integrate_sigma_x c p`, `het_expected_moments c p which`,
+  `het_expected_cross c p`, `het_joint c p`, `het_marginal c p`, `het_conditional c p`
+* `het_log_cond_y c p y`, `het_lb_quadratic c p y`, `het_lb_log_det c p`
+* `het_omega_dagger c p k`, `het_k_func c p k om`, `het_omega_star c p y k a`,
+  `het_update_omega c p y k a om`, `het_lb_integrals c p y k a om which` (`0`: second order,
+  `compute_fourth_order=False`; `1`, `2`: second / fourth order of `compute_fourth_order=True`),
+  `het_omega_loop c p y k a start prev` (the `while_loop` from an arbitrary start)
 -/
 namespace GT.Driver
 open GT
 
+def hetOpsOf (name : String) : Option (HLinkOps F) :=
+  match name with
+  | "exp" => some expOps
+  | "coshm1" => some coshM1Ops
+  | _ => none
+
+structure HetV where
+  Dy : Nat
+  Dx : Nat
+  Da : Nat
+  Dk : Nat
+  ops : HLinkOps F
+  c : HeteroB Dy Dx Da Dk F
+
+def getHet (i : Nat) : M HetV := do
+  match (← getReg i) with
+  | .hetero Dy Dx Da Dk ops c => pure ⟨Dy, Dx, Da, Dk, ops, c⟩
+  | _ => refuse "type-error:hetero"
+
+/-- an `[N, D]` array register as `N` points -/
+def getPointsH (i : Nat) (D : Nat) : M (Σ N, Arr N (Vec D F)) := do
+  let (shape, x) ← getArr i
+  match shape with
+  | [N, D'] =>
+    if D' ≠ D then refuse "shape-error"
+    pure ⟨N, v2 x⟩
+  | _ => refuse "shape-error"
+
+/-- a `[D]` array register -/
+def getVec (i : Nat) (D : Nat) : M (Vec D F) := do
+  let (shape, x) ← getArr i
+  match shape with
+  | [D'] =>
+    if D' ≠ D then refuse "shape-error"
+    pure (v1 x)
+  | _ => refuse "shape-error"
+
+/-- the density `p_x` with its dimension checked -/
+def getPx (i : Nat) (Dx : Nat) : M (Σ R, PdfV R Dx F) := do
+  let ⟨R, D, p⟩ ← getPdf i
+  if h : D = Dx then pure ⟨R, h ▸ p⟩ else refuse "shape-error"
+
+/-- `y` (`[N, Dy]`) paired with the `R` components of `p_x`: `N = R`, or `N = 1` broadcast.
+Everything else raises in the code (`N > 1, R = 1`: the `while_loop` carry changes shape;
+`N ≠ R`: einsum shape error). -/
+def pairY {Dy : Nat} (R : Nat) (i : Nat) : M (Arr R (Vec Dy F)) := do
+  let ⟨N, ys⟩ ← getPointsH i Dy
+  if h : N = R then pure (h ▸ ys)
+  else if h1 : N = 1 then pure (tab fun _ => ys (h1 ▸ (0 : Fin 1)))
+  else refuse "shape-error"
+
+def unitIdx (Dk : Nat) : M (Fin Dk) := do
+  let k ← lp nat
+  if h : k < Dk then pure ⟨k, h⟩ else refuse "index-error"
+
 def execHetero (dst : Nat) (op : String) : M Bool := do
-  let _ := dst
   match op with
+  | "hetero" => do
+    let cls ← lp tok
+    let R ← lp nat; let Dy ← lp nat; let Dx ← lp nat; let Da ← lp nat; let Dk ← lp nat
+    let Mm ← lp (floats (R * Dy * Dx)); let b ← lp (floats (R * Dy))
+    let A ← lp (floats (R * Dy * Da)); let W ← lp (floats (Dk * (Dx + 1)))
+    match hetOpsOf cls with
+    | none => refuse "bad-op"
+    | some ops =>
+      -- `__post_init__`: three NotImplementedErrors, in this order
+      if R ≠ 1 then refuse "refuse-documented"
+      if hy : Dy ≤ Da then
+        if hk : Dk ≤ Da then
+          setReg dst (.hetero Dy Dx Da Dk ops (mkHetero be (v3 Mm) (v2 b) (v3 A) (v2 W) hy hk))
+        else refuse "refuse-documented"
+      else refuse "refuse-documented"
+    pure true
+  | "het_linear_layer" => do
+    let h ← getHet (← reg)
+    let ⟨N, x⟩ ← getPointsH (← reg) h.Dx
+    setReg dst (.arr [N, h.Dk] (d2 (h.c.linearLayer x)))
+    pure true
+  | "het_cond_mu" => do
+    let h ← getHet (← reg)
+    let ⟨N, x⟩ ← getPointsH (← reg) h.Dx
+    setReg dst (.arr [1, N, h.Dy] (d2 (h.c.condMu x)))
+    pure true
+  | "het_cond_cov" => do
+    let h ← getHet (← reg)
+    let ⟨N, x⟩ ← getPointsH (← reg) h.Dx
+    let which ← lp nat
+    match which with
+    | 0 => setReg dst (.arr [N, h.Dy, h.Dy] (d3 (h.c.conditionalCov h.ops x)))
+    | 1 => setReg dst (.arr [N, h.Dy, h.Dy] (d3 (h.c.conditionalCovInv h.ops x).1))
+    | 2 => setReg dst (.arr [N, h.Dy, h.Dy] (d3 (h.c.conditionalCovInv h.ops x).2.1))
+    | _ => setReg dst (.arr [N] (d1 (h.c.conditionalCovInv h.ops x).2.2))
+    pure true
+  | "het_condition_on_x" => do
+    let h ← getHet (← reg)
+    let ⟨N, x⟩ ← getPointsH (← reg) h.Dx
+    setReg dst (.meas N h.Dy (h.c.conditionOnX h.ops be x))
+    pure true
+  | "het_set_y" => do
+    let _ ← getHet (← reg)
+    -- `raise AttributeError("HeteroscedasticConditional doesn't have function set_y.")`
+    refuse "other"
+  | "het_noise_diag" => do
+    let h ← getHet (← reg)
+    let ⟨R, p⟩ ← getPx (← reg) h.Dx
+    setReg dst (.arr [R * h.Dk] (d1 (h.ops.integrateNoiseDiagonal be h.c p)))
+    pure true
+  | "het_integrate_sigma_x" | "het_expected_moments" | "het_joint" | "het_marginal" | "het_conditional" => do
+    let h ← getHet (← reg)
+    let ⟨R, p⟩ ← getPx (← reg) h.Dx
+    -- `einsum("ab,b->ab", A_k, D_int)` with `D_int` of length `R*Dk`
+    if R ≠ 1 ∧ h.Dk ≠ 1 then refuse "shape-error"
+    match op with
+    | "het_integrate_sigma_x" => setReg dst (.arr [1, h.Dy, h.Dy] (d3 (h.c.integrateSigmaX h.ops be p)))
+    | "het_expected_moments" =>
+      let which ← lp nat
+      let (mu, S) := h.c.getExpectedMoments h.ops be p
+      if which = 0 then setReg dst (.arr [R, h.Dy] (d2 mu)) else setReg dst (.arr [R, h.Dy, h.Dy] (d3 S))
+    | "het_joint" => setReg dst (.meas R (h.Dx + h.Dy) (h.c.affineJoint h.ops be p))
+    | "het_marginal" => setReg dst (.meas R h.Dy (h.c.affineMarginal h.ops be p))
+    | _ =>
+      match h.c.affineConditional h.ops be p with
+      | some cnd => setReg dst (.cond R h.Dx h.Dy cnd)
+      | none => refuse "refuse-documented"
+    pure true
+  | "het_expected_cross" => do
+    let h ← getHet (← reg)
+    let ⟨R, p⟩ ← getPx (← reg) h.Dx
+    setReg dst (.arr [R, h.Dy, h.Dx] (d3 (h.c.getExpectedCrossTerms be p)))
+    pure true
+  | "het_log_cond_y" => do
+    let h ← getHet (← reg)
+    let ⟨R, p⟩ ← getPx (← reg) h.Dx
+    let y ← pairY (Dy := h.Dy) R (← reg)
+    setReg dst (.arr [R] (d1 (h.c.integrateLogConditionalY h.ops be p y)))
+    pure true
+  | "het_lb_quadratic" => do
+    let h ← getHet (← reg)
+    let ⟨R, p⟩ ← getPx (← reg) h.Dx
+    let y ← pairY (Dy := h.Dy) R (← reg)
+    setReg dst (.arr [1, R] (d1 (h.c.getLbQuadraticTerm h.ops be p y)))
+    pure true
+  | "het_lb_log_det" => do
+    let h ← getHet (← reg)
+    let ⟨R, p⟩ ← getPx (← reg) h.Dx
+    setReg dst (.arr [R] (d1 (h.ops.getLbLogDet be h.c p)))
+    pure true
+  | "het_omega_dagger" => do
+    let h ← getHet (← reg)
+    let ⟨R, p⟩ ← getPx (← reg) h.Dx
+    let k ← unitIdx h.Dk
+    setReg dst (.arr [R] (d1 (h.ops.getOmegaDagger be p (h.c.W k))))
+    pure true
+  | "het_k_func" => do
+    let h ← getHet (← reg)
+    let ⟨R, p⟩ ← getPx (← reg) h.Dx
+    let k ← unitIdx h.Dk
+    let om ← getVec (← reg) R
+    setReg dst (.arr [R] (d1 (h.ops.kFunc be p (h.c.W k) om)))
+    pure true
+  | "het_omega_star" => do
+    let h ← getHet (← reg)
+    let ⟨R, p⟩ ← getPx (← reg) h.Dx
+    let y ← pairY (Dy := h.Dy) R (← reg)
+    let k ← unitIdx h.Dk
+    let a ← getVec (← reg) h.Dy
+    setReg dst (.arr [R] (d1 (getOmegaStar h.ops be h.c p y (h.c.W k) a)))
+    pure true
+  | "het_update_omega" => do
+    let h ← getHet (← reg)
+    let ⟨R, p⟩ ← getPx (← reg) h.Dx
+    let y ← pairY (Dy := h.Dy) R (← reg)
+    let k ← unitIdx h.Dk
+    let a ← getVec (← reg) h.Dy
+    let om ← getVec (← reg) R
+    setReg dst (.arr [R] (d1 (h.ops.updateOmegaStar be h.c p y (h.c.W k) a om)))
+    pure true
+  | "het_lb_integrals" => do
+    let h ← getHet (← reg)
+    let ⟨R, p⟩ ← getPx (← reg) h.Dx
+    let y ← pairY (Dy := h.Dy) R (← reg)
+    let k ← unitIdx h.Dk
+    let a ← getVec (← reg) h.Dy
+    let om ← getVec (← reg) R
+    let which ← lp nat
+    let (q2, q4) := h.ops.lowerBoundIntegrals be h.c p y (h.c.W k) a om (which != 0)
+    match which, q4 with
+    | 2, some q4 => setReg dst (.arr [1, R] (d1 q4))
+    | 2, none => refuse "other"
+    | _, _ => setReg dst (.arr [1, R] (d1 q2))
+    pure true
+  | "het_omega_loop" => do
+    let h ← getHet (← reg)
+    let ⟨R, p⟩ ← getPx (← reg) h.Dx
+    let y ← pairY (Dy := h.Dy) R (← reg)
+    let k ← unitIdx h.Dk
+    let a ← getVec (← reg) h.Dy
+    let start ← getVec (← reg) R
+    let prev ← getVec (← reg) R
+    setReg dst (.arr [R] (d1 (omegaStarFrom h.ops be h.c p y (h.c.W k) a start prev)))
+    pure true
   | _ => pure false
 
 end GT.Driver
